@@ -62,6 +62,10 @@ CHECKS = {
     note="Trusted: TLC, IEEE-754 double arithmetic in numpy, exactness of k/M for dyadic M. The exact-rational oracle is validated against every enumerated spec state but is Python, not TLA+.",
     technique="TLA+ spec (Fold.tla) model-checked by TLC; all enumerated states replayed into the implementation; spec-derived exact oracle for IEEE inputs",
     design="DESIGN.md §4 C16"),
+ "C17": dict(level="model_checking",
+    text="StateHeap.tla models StateManager as an object heap (arrays are cells with identity and content version; what the caller holds vs. what is reachable from internal state) with one action per public method in the intended and the code-shaped semantics plus CallerScribble actions; TLC checks NoAlias, Stable, CacheCoherent, AppendOnly and OnePerCommit for all interleavings within the bounds and produces the shortest counterexamples for the code-shaped variant. Every enumerated operation sequence (and simulated deeper behaviours) is executed on a real StateManager: the observed sharing relation (is / numpy.shares_memory) must equal the intended one, then every returned object is overwritten and all getters re-read. System layer: real runs whose caller overwrites, after every iteration, everything returned by the getters, to_dict(), results(), posterior(); PSRunTrace.tla checks the append-only clauses at every commit and Pair.tla validates the scribbled run against an unscribbled twin.",
+    note=sysnote("copy=False is the documented opt-in and is not an accessor violation."),
+    technique="TLA+ specs (StateHeap.tla, PSRun.tla, Pair.tla) model-checked by TLC; enumerated behaviours replayed into the implementation; trace and pair validation", design="DESIGN.md §4 C17"),
  "C18": dict(level="model_checking",
     text="Config.tla holds the abstract option lattice and Valid(c) transcribed from the documented constraints. A covering array of the valid product (pairwise quick / 3-wise thorough; strength measured and re-checked by TLC against the spec's own Domain) plus every one-factor-at-a-time invalid value is run on the real Sampler; TLC validates the observed outcome of each configuration against Valid (rejected at construction with zero likelihood calls / runs to completion) and the full trace of every valid run against PSRunTrace.tla (NoRaise and the run postconditions).",
     note=sysnote("Covering-array strength is what is measured, not the full product."),
